@@ -46,7 +46,7 @@ Speakers(c) == LET p == PeerOf(S, c) IN IF p # "" THEN {p} ELSE Hosts
 OutstandingCer(c) == S.conn[c].dir = "out"
 Msgs(c) ==
   LET sp == Speakers(c) IN
-  (IF "cer" \in Alpha /\ S.conn[c].dir = "in" /\ S.conn[c].st = "CONNECTED"
+  (IF "cer" \in Alpha /\ S.conn[c].dir = "in" /\ S.conn[c].st = "CONNECTED" /\ S.conn[c].nodeName = ""   \* at most one CER per connection
      THEN {Mk("CE", 257, TRUE, 1, 1, 0, h, "", 0, FALSE, TRUE, FALSE, au, <<>>, FALSE) : h \in Hosts, au \in {<<RegApp>>, <<77>>}} ELSE {}) \cup
   (IF "cea" \in Alpha /\ S.conn[c].dir = "out" /\ S.conn[c].st = "CONNECTED"
      THEN {Mk("CE", 257, FALSE, S.conn[c].hbh, S.e2e, 0, h, "", rc, FALSE, TRUE, FALSE, <<RegApp>>, <<>>, FALSE)
@@ -83,6 +83,11 @@ Next == /\ n < Depth
              /\ S' = S1 /\ lastAct' = act /\ n' = n + 1
              /\ M' = MonStep(M, TraceStep(S1, act))
 Spec == Init /\ [][Next]_vars
+\* behaviour generation (-simulate): one random action per step, monitors not evaluated
+SimNext == /\ n < Depth /\ Acts # {}
+           /\ \E act \in {RandomElement(Acts)} :      \* (bound once: a LET would draw again at every use)
+                /\ S' = StepOf(S, act) /\ lastAct' = act /\ n' = n + 1 /\ M' = M
+SimSpec == Init /\ [][SimNext]_vars
 
 View == <<[S EXCEPT !.out = <<>>], M, n>>
 Sigs(vs) == {v.sig : v \in vs}
@@ -95,17 +100,4 @@ Inv13 == S.overflow \/ Sigs(M.c13.viol) \subseteq Known
 Quiescent == ~AnyEnabled(S)
 NoOverflow == ~S.overflow
 
-\* ---------------------------------------------------------------- configurations
-PeersA == ("p1.r1" :> [realm |-> "r1", persistent |-> FALSE, always |-> FALSE, rwait |-> 1, addrs |-> TRUE, default |-> FALSE,
-                        idle |-> 0, dwa |-> 0, cer |-> 0, cea |-> 0])
-PeersB == ("p1.r1" :> [realm |-> "r1", persistent |-> TRUE, always |-> FALSE, rwait |-> 1, addrs |-> TRUE, default |-> FALSE,
-                        idle |-> 1, dwa |-> 0, cer |-> 0, cea |-> 2])
-PeersC == PeersB @@ ("p2.r1" :> [realm |-> "r1", persistent |-> FALSE, always |-> FALSE, rwait |-> 1, addrs |-> TRUE, default |-> FALSE,
-                        idle |-> 0, dwa |-> 0, cer |-> 0, cea |-> 0])
-OrderP1 == <<"p1.r1">>
-OrderP12 == <<"p1.r1", "p2.r1">>
-OrderA1 == <<"a1">>
-NodeA == [host |-> "node.r1", realm |-> "r1", idle |-> 2, dwa |-> 1, cer |-> 1, cea |-> 1, wakeup |-> 1, retx |-> 2, validate |-> TRUE]
-AppsHold == ("a1" :> [id |-> 4, auth |-> TRUE, acct |-> FALSE, peers |-> {"p1.r1"}, realms |-> {}, kind |-> "basic", handler |-> "hold"])
-AppsAns  == ("a1" :> [id |-> 4, auth |-> TRUE, acct |-> FALSE, peers |-> {"p1.r1"}, realms |-> {}, kind |-> "basic", handler |-> "answer"])
 =============================================================================
